@@ -439,9 +439,12 @@ func collisionKind(a, b *triple.Triple) string {
 		parts = append(parts, "predicate")
 	}
 	if objKey(a.Object()) != objKey(b.Object()) {
-		_, ea := a.Object().Literal()
-		_, eb := b.Object().Literal()
+		la, ea := a.Object().Literal()
+		lb, eb := b.Object().Literal()
 		switch {
+		case ea == nil && eb == nil && la.Type() == lb.Type():
+			// two different values of ONE literal type share a UUID: not the known cross-type coincidence
+			parts = append(parts, "same-type-literals:"+la.Type().String())
 		case ea == nil && eb == nil:
 			parts = append(parts, "literal-encoding")
 		case ea != nil && eb != nil:
